@@ -114,7 +114,7 @@ package types
 //@   modifies types.Context.node: ctx
 //@   modifies map[string]string: ctx.params
 //@   ensures [C20,C13] empty: len(ctx.params) == 0 && (forall x string :: !in(x, ctx.params))
-//@   ensures [C20,C13] fields: ctx.Path == "" && ctx.routerName == "" && ctx.node == nil
+//@   ensures [C20,C13,C07] fields: ctx.Path == "" && ctx.routerName == "" && ctx.node == nil
 //
 //@ fn NewContext
 //@   nopanic
